@@ -357,7 +357,12 @@ def _run_cfg(ctx, sub, cfg, cases, mexe, slow_every=0):
         model, _ = run_balanced(mexe, cases, args=("sw",))     # portable loop over the spec cipher
     else:
         model = spec                                               # OpenSSL is not modelled
-    vlib.tri_compare(ctx, sub + "." + cfg, cases, impl, model, spec, describe=describe)
+    # cases on which the library differs from the SPEC first: when the model itself answers Fault (the
+    # translator found no form for a rewritten statement) every case is a model diff, and the first few
+    # reported must still be the failing inputs
+    order = sorted(range(len(cases)), key=lambda i: 0 if i < len(impl) and i < len(spec) and impl[i] != spec[i] else 1)
+    pick = lambda l: [l[i] if i < len(l) else "<missing>" for i in order]
+    vlib.tri_compare(ctx, sub + "." + cfg, pick(cases), pick(impl), pick(model), pick(spec), describe=describe)
     if slow_every:
         sl = [c for i, c in enumerate(cases) if i % slow_every == 0 and len(c) < 4000]
         a, _ = vlib.run_sharded(mexe, ["slow " + c for c in sl], args=("sw",))
@@ -413,6 +418,80 @@ def check_aes_ctr(ctx):
                "counter-byte carries in one call / several calls / with a partial block first; AES-NI build vs stream_cfg true (bulk path model), software build vs the portable loop; "
                "both vs ctr_spec of the concatenated data per (key, nonce) epoch",
                samples=[cases[0][:160], cases[len(cases) // 2][:160]] if cases else [])
+
+
+BIG_LEN = (1 << 32) + 53
+
+
+def _mem_available_gib():
+    try:
+        for line in open("/proc/meminfo"):
+            if line.startswith("MemAvailable:"):
+                return int(line.split()[1]) / (1 << 20)
+    except (OSError, ValueError):
+        pass
+    return 0.0
+
+
+def check_aes_ctr_big(ctx):
+    """One real crypto_aesctr_stream call of more than 2^32 bytes on the AES-NI build, then 71 more bytes:
+    the stream position kept across calls must have taken in the whole length of the long call.  What the
+    theorems say for every length below 2^64 (AesCtrProofs: the regenerated bookkeeping statements, evaluated
+    with C integer semantics, equal the reference arithmetic - wb_epilogue_run and friends) is here looked
+    at on a concrete input beyond 32 bits.  Needs ~4.1 GiB of memory and ~7 s: thorough tier, and the quick
+    tier exactly when a proof / translator step is broken (the search for a failing input)."""
+    sub = "aes.ctr-4GiB"
+    if ctx.quick and not ctx.proof_broken:
+        ctx.count("aes.ctr-4GiB.not-run-in-quick-tier")
+        return
+    if not host_has_aes():
+        ctx.notes.append("host CPU lacks AES-NI: the > 2^32-byte AES-NI call is NOT covered")
+        return
+    if _mem_available_gib() < 5.5:
+        ctx.notes.append("less than 5.5 GiB of memory available: the > 2^32-byte call was NOT run")
+        return
+    mexe = _models(ctx, sub)
+    if not mexe:
+        return
+    exe, err = vlib.build_c("drv_aes_aesni_big", "drv_aes.c", SRCS_NI, cflags=QUIET, ldflags=["-lcrypto"], asan=False,
+                            cpuconfig=os.path.join(CPUCFG, "aesni.h"), per_file_flags=NI_FLAGS)
+    if not exe:
+        ctx.fail(sub, "build", "aesni-big", "C driver (aesni, no sanitizer) does not build: %s" % err)
+        return
+    if not active_path(ctx, sub, exe, "aesni").startswith("path 1"):
+        return
+    r = ctx.rng
+    # (len1, len2, tail1): the long call ends mid-block / on a block boundary
+    shapes = [(BIG_LEN, 71, 69)] if ctx.quick else [(BIG_LEN, 71, 69), ((1 << 32) + 16 * r.randrange(1, 9), 33, 48)]
+    cases = ["big %s %s %d %d %d" % (hx(rbytes(r, klen)), nonce_tok(r), l1, l2, t1)
+             for (l1, l2, t1), klen in zip(shapes, (16, 32))]
+    impl = []
+    for c in cases:                      # one at a time: 4 GiB each
+        rc, lines, e = vlib.run_lines(exe, c + "\n", timeout=600)
+        impl.append(lines[0] if lines else "<no-output rc=%d %s>" % (rc, e.strip()[-200:]))
+    rc, spec, _ = vlib.run_lines(mexe, "".join("spec %s\n" % c for c in cases), args=("sw",))
+    seen = set()
+    for i, c in enumerate(cases):
+        a = impl[i]
+        s_ = spec[i] if i < len(spec) else "<missing>"
+        ctx.count("aes.ctr-4GiB.len1=%s" % c.split()[3])
+        seen.add((c, a))
+        if a == "nomem":
+            ctx.notes.append("calloc of the > 2^32-byte buffer failed: case NOT run")
+            continue
+        if a != s_:
+            fa, fs = a.split(), s_.split()
+            where = "the tail of the long call itself" if len(fa) == 3 and len(fs) == 3 and fa[1] != fs[1] else \
+                    "the call FOLLOWING the long call (stream position after a > 2^32-byte call)"
+            ctx.fail(sub, "property", c, "AES-NI build, one call of %s bytes then %s bytes: wrong keystream in %s: impl=%s spec=%s "
+                     "(spec = ctr_spec_from at the block index of each reported range)" % (c.split()[3], c.split()[4], where, a[:400], s_[:400]),
+                     property_fails=True)
+    ctx.record(sub, cases, seen,
+               "AES-NI build (no sanitizer): ONE crypto_aesctr_stream call of 2^32 + 53 (thorough also 2^32 + 16k) zero bytes in place "
+               "on a calloc block, then a call of 71 (33) bytes on the same stream; the last 69 (48) bytes of the long call and all bytes "
+               "of the following call vs ctr_spec_from evaluated at their block index; run in the thorough tier and, in the quick tier, "
+               "only when a proof or translator step is broken",
+               samples=cases[:1])
 
 
 def check_aes_wipe(ctx):
@@ -607,7 +686,10 @@ def check_aes_select(ctx):
             impl.append(out)
             seen.add((n, vlib.hashlib.md5(c.encode()).hexdigest(), vlib.hashlib.md5(out.encode()).hexdigest()))
         tagged = ["[refuse-alloc=%s] %s" % (n or "none", c) for c in cases]
-        vlib.tri_compare(ctx, "%s.refuse-%s" % (sub, n or "none"), tagged, impl, models[st], spec, describe=describe, max_report=2)
+        order = sorted(range(len(tagged)), key=lambda i: 0 if impl[i] != spec[i] else 1)
+        pick = lambda l: [l[i] if i < len(l) else "<missing>" for i in order]
+        vlib.tri_compare(ctx, "%s.refuse-%s" % (sub, n or "none"), pick(tagged), pick(impl), pick(models[st]), pick(spec),
+                         describe=describe, max_report=2)
         allc += tagged
     ctx.count("aes.select.crashes", nrep["crash"])
     ctx.record(sub, allc, seen,
@@ -624,6 +706,6 @@ def check_aes_select(ctx):
                samples=[allc[1][:160], allc[-1][:160]] if allc else [])
 
 
-SUBCHECKS = {"C02": [check_aes_select, check_aes_block, check_aes_ctr],
-             "C03": [check_aes_select, check_aes_block, check_aes_ctr],
+SUBCHECKS = {"C02": [check_aes_ctr_big, check_aes_select, check_aes_block, check_aes_ctr],
+             "C03": [check_aes_ctr_big, check_aes_select, check_aes_block, check_aes_ctr],
              "C20": [check_aes_wipe]}
